@@ -1,24 +1,24 @@
-\* thorough: every source x every kind x all optional forms, rich input classes
+\* thorough: parameter multimaps (form, header) - a key with no value at all / with two values, every kind, pointer fields, optional=dep / optional=!dep
 SPECIFICATION GSpec
 CONSTANTS
-  Sources = {"json", "yaml", "toml", "conf", "confyaml", "conftoml", "body", "map", "form", "formpost", "path", "header"}
+  Sources = {"form", "formpost", "header"}
   Wraps = {"flat"}
-  Kinds = {"int", "int64", "uint8", "float32", "float64", "string", "bool"}
+  Kinds = {"int", "float64", "string", "bool", "strs", "ints"}
   AOpts = {"none", "plain", "dep", "notdep"}
-  Defs = {"none", "out"}
-  Rngs = {"none", "oc"}
+  Defs = {"none", "in"}
+  Rngs = {"none", "cc"}
   Opts = {"none", "bar"}
-  FSs = {FALSE, TRUE}
+  FSs = {FALSE}
   Ptrs = {FALSE}
   BIds = {"nob"}
   XKs = {"", "b", "zz"}
-  Rich = TRUE
+  Rich = FALSE
   Edges = FALSE
   KSps = {"lower"}
   MKs = {"k"}
   Unit = 2
-  Multi = FALSE
-  XVs = {"one"}
+  Multi = TRUE
+  XVs = {"one", "none", "two"}
   Depth = 1
   Emit = TRUE
 INVARIANTS InvNoPanic InvCompleteness InvSoundness InvValues InvHistoryIndependent InvClassesDisjoint PrintVec
